@@ -778,6 +778,8 @@ def page_hook(E, page):
     data = page["data"]
     if not (isinstance(data, Sym) and data.kind == "ref"):
         raise X.Unsupported("TiffWriter.write of a value that is not a frame reference")
+    # an EFFECT obligation per tif.write (externally meaningful: what reaches the file), besides the log entry the invariants speak about
+    E.prove(f"{E.cur_contract.short}/effect/every-page-written-contiguous-minisblack-unit-um-axes-ZXY-with-the-given-resolution-into-the-named-file", bool(ok), "postcondition")
     E.models.LIST_METHODS["append"](E, E.ghost["page_log"], [(data, 1 if ok else 0)], {})
 
 
